@@ -232,8 +232,11 @@ class C03(PropertyCheck):
     extra_vo = ['Lang/CellsInst.vo', 'Lang/ForwardInst.vo']          # model files evaluated by the correspondence that Props/<id>.v does not depend on
     id = 'C03'
     imports = IMPORTS
-    technique = 'Coq proof of interner injectivity tied to the extracted regex + lexical reference evaluator; deep-nesting / shadowing / escaping-closure differential correspondence'
-    trusted = ['translator/idents.py', 'see C02 for the evaluator and generator']
+    technique = ('Coq proofs: interner injectivity (extracted regex); capture re-threading (into_static_ud) preserves what every cell of every scope denotes, for every nest, and its '
+                 'run-time meaning over copying frames; forward-declaration gate exact for every program (accepted iff no reachable function lacks a body); lexical reference evaluator; '
+                 'deep-nesting / shadowing / escaping-closure differential correspondence; model of into_static_ud compared with the compiler\'s own record of every closed scope (hook); generated forward programs')
+    trusted = ['translator/idents.py', 'see C02 for the evaluator and generator', 'hook verif_cell_log (cfg xray_verif) reports the cells / specs / requests of each closed scope faithfully',
+               'the forward model covers top-level programs whose functions call smaller names unconditionally']
     assumptions = ['forward declarations are outside the Coq evaluator: modelled separately in coq/Lang/Forward.v (gate = reachability, exhaustively checked to a stated bound) plus template oracle']
     rule = ('programs with functions nested up to depth 6, names from a pool of 20 spellings (so parameters/lets shadow constantly), closures stored/returned/passed, '
             'defaults with display; distinct = distinct program texts; non-trivial = the program has a function nested at level >= 2 or a shadowed name')
